@@ -410,6 +410,21 @@ func FamilyCustom(thorough bool) []*Conv {
 			Spec:      &Spec{Custom: map[string]string{"PFXA→PFXB": "CONVMETHODHelper"}},
 		})
 	}
+	// of two functions for one pair the one registered by the *lower* extend line is used, whether a line is a plain
+	// name or a pattern
+	for i, order := range [][]string{{"extend PFXConv.*", "extend PFXDateOnly"}, {"extend PFXDateOnly", "extend PFXConv.*"}} {
+		for _, pos := range []struct{ name, src, tgt string }{{"field", "struct{ V PFXStamp; N int }", "struct{ V string; N int }"}, {"elem", "[]PFXStamp", "[]string"}} {
+			want := []string{"PFXDateOnly", "PFXConvStamp"}[i]
+			f := []string{"struct", "function", "variable"}[(i+len(pos.name))%3]
+			out = append(out, &Conv{
+				ID: fmt.Sprintf("custom/extend_pattern_and_name_lower_line_wins_%d/%s/%s", i, pos.name, f), Family: "custom", Format: f, Solo: true,
+				Params: "source " + pos.src, Results: pos.tgt,
+				Decls:     "type PFXStamp struct{ Sec int }\nfunc PFXConvStamp(s PFXStamp) string { return \"\" }\nfunc PFXDateOnly(s PFXStamp) string { return \"\" }\n",
+				ConvLines: order,
+				Spec:      &Spec{Custom: map[string]string{"PFXStamp→string": want}},
+			})
+		}
+	}
 	// ... but only the block's own variables are left out: a function of *another* package that merely shares its
 	// bare name with a variable of the block is a custom function like any other
 	for _, pos := range []struct{ name, src, tgt string }{{"field", "struct{ V pfxext.A; S string }", "struct{ V pfxext.B; S string }"}, {"elem", "[]pfxext.A", "[]pfxext.B"}} {
@@ -564,6 +579,27 @@ func FamilyError(thorough bool) []*Conv {
 			cv.FailNote = "fallible custom function used by a method without error result"
 			out = append(out, cv)
 		}
+	}
+	// ... also when a sibling with the same source and target (it differs in its contexts) does return an error:
+	// each declared method is checked on its own
+	for i, f := range []string{"struct", "function", "variable"} {
+		sib := "\t// goverter:context loc\n\t// goverter:context unit\n\tZPFXChecked(source PFXIn, loc PFXLoc, unit PFXUnit) (PFXOut, error)\n"
+		if f == "variable" {
+			sib = strings.Replace(sib, "ZPFXChecked(", "ZPFXChecked func(", 1)
+		}
+		main := []string{"source PFXIn, tag PFXTag", "source PFXIn", "source PFXIn, tag PFXTag"}[i]
+		var ml []string
+		if strings.Contains(main, "tag") {
+			ml = []string{"context tag"}
+		}
+		out = append(out, &Conv{
+			ID: "error/fail_noerr_method_next_to_fallible_sibling_of_same_pair/" + f, Family: "error", Format: f, Solo: true,
+			Params: main, Results: "PFXOut", MethodLines: ml, ExtraMethods: sib,
+			Decls:      "type PFXTag string\ntype PFXLoc string\ntype PFXUnit string\ntype PFXIn struct{ Age string }\ntype PFXOut struct{ Age int }\nfunc PFXAtoi(s string) (int, error) { return 0, nil }\n",
+			ConvLines:  []string{"extend PFXAtoi"},
+			Spec:       &Spec{},
+			ExpectFail: true, FailNote: "fallible custom function used by a method without error result (a sibling for the same pair returns an error)",
+		})
 	}
 	return out
 }
